@@ -139,3 +139,17 @@ Proof.
   split; [vm_compute; reflexivity|now inversion F].
 Qed.
 Print Assumptions C01_programs_example.
+
+(** The string form.  For the constructor on EVERY input whose authority is absent or a plain
+    ASCII host name (no userinfo, port or IP literal; [plain_name]) without '%' in the host
+    (a '%' in a registered name is lower-cased with it: known finding F26): str(url) exists,
+    is pure ASCII and every '%' in it starts an escape of two upper-case hex digits - so
+    bytes(url) cannot fail.  (Other authorities: predicate c01_pred on the implementation.) *)
+From Yarl Require Import Spec.Rfc3986Split Proofs.FixedPointProofs Proofs.StrWfProofs.
+Theorem C01_constructor_string : forall (O : oracles) (B : backend) (s : str) (u : url),
+  valid_str s -> encode_url O B s = Ok u ->
+  (let '(_, nl0, _, _, _) := rfc_split (spec_clean s) in nl0 = [] \/ plain_name nl0) ->
+  mem 37%N (u_netloc u) = false ->
+  exists t, url_str B u = Ok t /\ Forall (fun c => (c < 128)%N) t /\ pct_wf t = true.
+Proof. exact constructor_string_wf. Qed.
+Print Assumptions C01_constructor_string.
